@@ -1,4 +1,36 @@
-(* placeholder until the composition theorems are in place *)
-From GT Require Import Validate.
-Example C03_pending : True. Proof. exact I. Qed.
-Print Assumptions C03_pending.
+(* C03 — validation always terminates without panic, even on cyclic fragments. *)
+From GT Require Import Visitor Validate.
+From GTS Require Import Annot WfSchema SpecValid.
+From GTP Require Import C03_proofs.
+
+(* Every fuel-bounded walk of the model is given enough fuel: no rule other than the field-merging
+   rule ever runs out of fuel, for ANY schema and document (cyclic, unknown names, invalid ...). *)
+Theorem C03_no_fuel_exhaustion : forall r s d c,
+  r <> R_OverlappingFieldsCanBeMerged -> r_oof (snd (run_rule r s d c)) = false.
+Proof. exact no_fuel_exhaustion. Qed.
+Print Assumptions C03_no_fuel_exhaustion.
+
+(* validate returns normally (neither Panic nor OutOfFuel) on every well-formed schema and every
+   document, for every plan without the field-merging rule ... *)
+Theorem C03_terminates : forall s d plan, wf_schema s = true ->
+  ~ In R_OverlappingFieldsCanBeMerged plan -> exists es, validate s d plan = Ok es.
+Proof. exact validate_terminates. Qed.
+Print Assumptions C03_terminates.
+
+(* ... and with it whenever the merge rule itself does not exhaust its (generous) fuel; that
+   [merge_fuel d] always suffices is NOT proved (see DESIGN.md: C03 partial) *)
+Theorem C03_terminates_partial : forall s d plan, wf_schema s = true ->
+  r_oof (snd (run_rule R_OverlappingFieldsCanBeMerged s d ctx0)) = false ->
+  exists es, validate s d plan = Ok es.
+Proof. exact validate_terminates_partial. Qed.
+Print Assumptions C03_terminates_partial.
+
+(* the only panic: a schema without a query root object, met by a query operation *)
+Theorem C03_panic_exact : forall s d plan,
+  validate s d plan = Panic <-> plan <> [] /\ document_panics s d = true.
+Proof. exact validate_panic_exact. Qed.
+Print Assumptions C03_panic_exact.
+
+Theorem C03_no_panic_when_wf : forall s d, wf_schema s = true -> document_panics s d = false.
+Proof. exact wf_no_panic. Qed.
+Print Assumptions C03_no_panic_when_wf.
